@@ -116,3 +116,13 @@ def instantiate(ground, schemas, rounds=3, cap=4000, per_sort_cap=80):
 
 def _is_value_literal(t):
     return z3.is_int_value(t) or z3.is_true(t) or z3.is_false(t)
+
+
+def exists_witness(path, n, pred, name="ex"):
+    """A Bool term equivalent to  exists j in [0, n). pred(j)  whose both directions are usable without
+    native quantifiers: b => pred(w) for a fresh witness w;  forall j. pred(j) => b  as a schema."""
+    b = path.fresh(name, z3.BoolSort())
+    w = path.fresh(name + "_w", z3.IntSort())
+    path.assume(z3.Implies(b, z3.And(w >= 0, w < n, pred(w))))
+    path.assume(Q([z3.IntSort()], lambda j: z3.Implies(z3.And(j >= 0, j < n, pred(j)), b), name=name + "-intro"))
+    return b
